@@ -53,6 +53,12 @@ def units(ctx):
     us += [_cu3(c, world_setup=_c3.setup)
            for c in _c3.predicate_contracts() + _c3.wrapper_contracts()
            if 'C04' in c.serves]
+    # equal dicts hash alike whatever their entry order (dict keys, set
+    # members, distinct / groupBy keys)
+    from contracts import utils as _u4
+    from vlib.pyvc.unit import contract_unit as _cu4
+    us += [_cu4(c, world_setup=_u4.setup) for c in _u4.contracts()
+           if 'FrozenDict.__hash__' in c.short]
     return us
 
 
